@@ -413,7 +413,8 @@ def run(case):
             fs.files[name] = damaged
             via = "path" if nev % 2 else "stream"
             try:
-                got = files.read_file(kind, fs, env, name, via, True, key, decs)
+                # argument kind: callers also pass the flag as an int (1) - "MAC checking on" all the same
+                got = files.read_file(kind, fs, env, name, via, 1 if case.get("rng", 0) % 3 == 0 else True, key, decs)
             except SimCrash:
                 raise
             except Exception as e:
